@@ -54,6 +54,11 @@ _reg("C17", "xsim.manager.props", "C17", "fault_enumeration", {"quick": 1280, "t
      "generated API calls (assign expression/value, in-place op, register, unregister, load, copy_expr_from, refresh, verify, "
      "cleanup, clone); then unfrozen and the rest of the history is run; distinct = distinct case digest; non-trivial = at least "
      "one mutating call was made on a frozen manager (count in probes.mutating_calls_on_frozen)")
+_reg("C12", "xsim.manager.props", "C12", "exploration", {"quick": 4800, "thorough": 150000}, {"quick": 150, "thorough": 600},
+     ("pure", "compiled"), COMPONENTS_MANAGER,
+     "one case = seeded expression/linear-knob history with 1-3 pickle restarts at random positions, each followed by one of: "
+     "mirrored assignments on original and copy, assignments to the copy only, assignments to the original only; distinct = "
+     "distinct case digest; non-trivial = at least one pickle restart was executed")
 
 
 def driver_for(prop):
